@@ -65,7 +65,7 @@ func newOut(dir, name string, seed int64, tier string) *Out {
 	must(err)
 	return &Out{dir: dir, name: name, fo: fo, fa: fa,
 		ops: bufio.NewWriterSize(fo, 1<<20), ans: bufio.NewWriterSize(fa, 1<<20),
-		Meta: Meta{Stream: name, Seed: seed, Tier: tier,
+		Meta: Meta{Stream: name, Seed: seed, Tier: tier, Samples: []any{}, Violations: []Violation{}, Notes: []string{},
 			Nontrivial: map[string]int{}, Counters: map[string]int{}}}
 }
 
@@ -258,7 +258,8 @@ func parent(stream, dir string, seed int64, tier string) {
 		from = cur.Index + 1
 	}
 	// merge the children's meta files
-	merged := Meta{Stream: stream, Seed: seed, Tier: tier, Nontrivial: map[string]int{}, Counters: map[string]int{}}
+	merged := Meta{Stream: stream, Seed: seed, Tier: tier, Nontrivial: map[string]int{}, Counters: map[string]int{},
+		Samples: []any{}, Violations: []Violation{}, Notes: []string{}}
 	files, _ := filepath.Glob(filepath.Join(dir, stream+".meta.*.json"))
 	sort.Strings(files)
 	for _, f := range files {
